@@ -276,6 +276,50 @@ func check(c Case) *vfrun.Failure {
 			}
 			queue = rest
 		}
+		// which response keys did gqlgen deliver through groups of each object?
+		deferredKeys := map[string]map[string]bool{}
+		for _, pl := range r.out[1:] {
+			ps := pl.Path.String()
+			if d, perr := strictjson.Parse(pl.Data); perr == nil && d.Kind == strictjson.Object {
+				if deferredKeys[ps] == nil {
+					deferredKeys[ps] = map[string]bool{}
+				}
+				for _, k := range d.Keys {
+					deferredKeys[ps][k] = true
+				}
+			}
+			// a group that failed delivers data:null; its errors tell which of its fields failed
+			for _, ge := range pl.Errors {
+				ep := ge.Path.String()
+				rest := ""
+				if ps == "" {
+					rest = ep
+				} else if strings.HasPrefix(ep, ps+".") {
+					rest = ep[len(ps)+1:]
+				}
+				if rest != "" {
+					key := rest
+					if i := strings.IndexAny(key, ".["); i >= 0 {
+						key = key[:i]
+					}
+					if deferredKeys[ps] == nil {
+						deferredKeys[ps] = map[string]bool{}
+					}
+					deferredKeys[ps][key] = true
+				}
+			}
+		}
+		plainRef := kit.Reference(s, pr, p)
+		for _, q := range queue {
+			// a group must never be started for an object that one of its own eager (non-deferred)
+			// non-null fields nulled: that is not the known finding
+			ps := q.pl.Path.String()
+			for _, k := range plainRef.NullingKeys[ps] {
+				if !deferredKeys[ps][k] {
+					return vfrun.Failf("defer.group-started-for-object-nulled-by-its-own-field", "[%s] payload %d (path %q label %q) belongs to an object that its own non-deferred non-null field %q nulled: the group must not have been started\npayloads: %s", s.P.Vec, q.i, ps, q.pl.Label, k, payloadDump(r.out))
+				}
+			}
+		}
 		for _, q := range queue {
 			_, nullAt, _ := apply(q.i, q.pl)
 			msg := fmt.Sprintf("[%s] payload %d has path %q (label %q) but %q is null in the merged result: the client can never find it", s.P.Vec, q.i, q.pl.Path.String(), q.pl.Label, nullAt)
@@ -325,6 +369,14 @@ func check(c Case) *vfrun.Failure {
 	return nil
 }
 
+func payloadDump(out []*proj.Response) string {
+	var sb strings.Builder
+	for i, pl := range out {
+		fmt.Fprintf(&sb, "\n  #%d path=%q label=%q data=%s errors=%v", i, pl.Path.String(), pl.Label, pl.Data, pl.Errors)
+	}
+	return sb.String()
+}
+
 func reverseNext(ref *refexec.Result) map[string]string {
 	next := map[string]string{}
 	byParent := map[string][]string{}
@@ -364,7 +416,7 @@ func gen(t *rapid.T) Case {
 		t.Skip("generated operation is not valid: " + f.Msg)
 	}
 	ref := kit.Reference(s, pr, c.Case.Plan())
-	c.Overrides = kit.DrawOverrides(t, kit.Candidates(ref), 3, false)
+	c.Overrides = kit.DrawOverrides(t, kit.Candidates(ref), 3, true)
 	c.SchedMode = rapid.SampledFrom([]string{"", "yield", "delay", "reverse", "mixed"}).Draw(t, "sched")
 	c.SchedSeed = rapid.Uint64Range(1, 1<<20).Draw(t, "schedseed")
 	return c
